@@ -52,8 +52,8 @@ def expected(sc, spec_lists):
 
 
 def judge(ck, sc, res):
-    msgs = [(m["m"], m["k"], sc["size"][i]) for i, m in enumerate(sc["msgs"])]
-    rp = {"msgs": sc["msgs"], "size": sc["size"], "delivered": sc["delivered"], "echoed": sc["echoed"], "observed": res,
+    msgs = [(m["m"], m["k"], sc["size"][i]) + ((sc["at"][i],) if sc.get("at") and sc["at"][i] else ()) for i, m in enumerate(sc["msgs"])]
+    rp = {"at": sc.get("at"), "msgs": sc["msgs"], "size": sc["size"], "delivered": sc["delivered"], "echoed": sc["echoed"], "observed": res,
           "pipelined": sc.get("pipelined", False), "ends": sc.get("ends")}
     if res.get("error"):
         raise lib.Infra("scenario %s: %s" % (sc["id"], res["error"]))
@@ -76,7 +76,9 @@ def judge(ck, sc, res):
                 sig = "agent/delivered-bytes-differ"
             ck.disagree(sig, "messages %s: %s" % (msgs, what), rp)
             return
-        if got_e != exp_e[k]:
+        if sc["msgs"][-1]["m"] == "disconnect" and exp_e[k].startswith(got_e):
+            pass        # what the service had written but the agent had not read when it went away is lost by nature
+        elif got_e != exp_e[k]:
             ck.disagree("agent/written-bytes-differ", "messages %s: agent received %d bytes tagged with connection %s, specification %d" % (
                 msgs, len(got_e) // 2, k, len(exp_e[k]) // 2), rp)
             return
@@ -171,8 +173,28 @@ def run(tier, lab):
                 msgs.append({"m": "eof", "k": k, "n": 0})
                 size.append(0)
             scs.append({"id": len(scs), "msgs": msgs, "size": size, "delivered": gens, "echoed": gens, "pipelined": True})
+    # the reader/receiver protocol of one connection (AgentConn.tla): every data message and the end of the stream arrive either
+    # while the service's reader waits or while it is in the gap between releasing its lock and starting to wait (held there
+    # through hook agent.VerifReadGap) - schedules enumerated by TLC
+    ra = lib.tlc("MC_AgentConn", timeout=200, constants={"MCCap": "1", "MCRecheck": "TRUE", "MCChunks": "3"})
+    lib.tlc_must_pass(ra, "AgentConn (NoStall, InOrder, NoLoss, Delivered under fairness)")
+    ck.add_tlc(ra, "AgentConn: reader x receiver x end of stream at lock granularity, 3 data messages, safety + liveness")
+    rb = lib.tlc("MC_AgentConn", timeout=200, constants={"MCCap": "0", "MCRecheck": "FALSE", "MCChunks": "3"}, want_scn=False)
+    if rb.violated != "NoStall":
+        raise lib.Infra("an unbuffered notification channel does not violate NoStall in AgentConn (got %s)" % rb.violated)
+    for sched in {json.dumps(x["arrivals"]): x["arrivals"] for x in ra.scn}.values():
+        msgs, at, gens = [{"m": "hello", "k": 1, "n": 0}], [""], []
+        for a in sched:
+            if a["m"] == "data":
+                msgs.append({"m": "data", "k": 1, "n": len(msgs) + 1})
+                gens.append({"k": 1, "n": msgs[-1]["n"]})
+            else:
+                msgs.append({"m": "eof", "k": 1, "n": 0})
+            at.append(a["at"])
+        scs.append({"id": len(scs), "msgs": msgs, "size": [8 if m["m"] == "data" else 0 for m in msgs], "at": at,
+                    "delivered": [gens], "echoed": [gens], "ends": [True]})
     port = free_port()
-    slim = [{"id": s["id"], "msgs": s["msgs"], "size": s["size"], "pipelined": s.get("pipelined", False)} for s in scs]
+    slim = [{"id": s["id"], "msgs": s["msgs"], "size": s["size"], "pipelined": s.get("pipelined", False), "at": s.get("at", [])} for s in scs]
     results = {r["id"]: r for r in lib.run_sharded(lab, "c16", slim, shards=1, extra_args=["-port", str(port), "-par", "12"], timeout=2400)}
     for sc in scs:
         res = results.get(sc["id"])
@@ -200,8 +222,8 @@ def replay(lab, path):
         codec_part(ck, lab)
     else:
         sc = {"id": 0, "msgs": rp["msgs"], "size": rp["size"], "delivered": rp["delivered"], "echoed": rp["echoed"],
-              "pipelined": rp.get("pipelined", False), "ends": rp.get("ends")}
-        res = lib.run_sharded(lab, "c16", [{"id": 0, "msgs": sc["msgs"], "size": sc["size"], "pipelined": sc["pipelined"]}], shards=1,
+              "pipelined": rp.get("pipelined", False), "ends": rp.get("ends"), "at": rp.get("at") or []}
+        res = lib.run_sharded(lab, "c16", [{"id": 0, "msgs": sc["msgs"], "size": sc["size"], "pipelined": sc["pipelined"], "at": sc["at"]}], shards=1,
                               extra_args=["-port", str(free_port()), "-par", "1"], timeout=600)[0]
         print(json.dumps(res)[:1500])
         judge(ck, sc, res)
